@@ -144,6 +144,10 @@ def meta(tier):
             "where docstring / ABC / property wording disagree both answers are admissible (see predoracle)",
         ],
         "exhaustive": True,
+        "explanation": "signature = C17/<predicate>/<answer|raises|spelling|stability|origin-instantiable>/<entry kind>[/<exception>]; "
+        "entry kinds abstract subscripted generics to 'subscripted:<origin family>', bare typing aliases to 'typing-alias:<family>', "
+        "wrapper chains to '<outermost wrapper>:<class|subscripted|typing-alias|special form>', classes with __call__ to "
+        "'callable-class' (raises clause); replay case = {pred, entry label}",
     }
 
 
